@@ -1,0 +1,8 @@
+//go:build verif
+// +build verif
+
+package ioutil
+
+// VerifBuffered reports the number of bytes written to the PageWriter that have not
+// reached the underlying writer yet (verification hook, build tag verif only).
+func (pw *PageWriter) VerifBuffered() int { return pw.bufferedBytes }
